@@ -352,7 +352,7 @@ func TestVerif(t *testing.T) {
 			}
 			r.Eval(1)
 			for _, c := range qcfgs {
-				if "quota-"+c.Name == rp.Scenario {
+				if "quota-"+c.Name == strings.TrimSuffix(rp.Scenario, "-5addrs") {
 					if out := runQuota(t, c, rp.History); out.FailKey != "" {
 						r.Violation(rp.Scenario+"/"+out.FailKey, out.FailDesc, bfs.ReplayData[qop]{Scenario: rp.Scenario, History: rp.History})
 					}
@@ -363,16 +363,23 @@ func TestVerif(t *testing.T) {
 
 		synctest.Test(t, func(t *testing.T) { pairs(r) })
 
-		depth, addrs := 4, []int{0, 1, 2}
-		if r.Thorough() {
-			depth, addrs = 5, []int{0, 1, 2, 3, 4}
+		type plan struct {
+			depth int
+			addrs []int
+			tag   string
 		}
-		for _, c := range qcfgs {
-			c := c
-			res := bfs.Explore(bfs.Config[qop]{Name: c.Name, Ops: c.ops(addrs), Depth: depth,
-				Shard: r.Shard, NShards: r.NShards, Deadline: r.DeadlineTime(),
-				Run: func(h []qop) bfs.Outcome { return runQuota(t, c, h) }})
-			res.Merge(r, "quota-"+c.Name)
+		plans := []plan{{4, []int{0, 1, 2}, ""}}
+		if r.Thorough() {
+			plans = []plan{{5, []int{0, 1, 2}, ""}, {4, []int{0, 1, 2, 3, 4}, "-5addrs"}}
+		}
+		for _, pl := range plans {
+			for _, c := range qcfgs {
+				c := c
+				res := bfs.Explore(bfs.Config[qop]{Name: c.Name, Ops: c.ops(pl.addrs), Depth: pl.depth,
+					Shard: r.Shard, NShards: r.NShards, Deadline: r.DeadlineTime(),
+					Run: func(h []qop) bfs.Outcome { return runQuota(t, c, h) }})
+				res.Merge(r, "quota-"+c.Name+pl.tag)
+			}
 		}
 	})
 }
